@@ -397,7 +397,7 @@ void run_idle_sweep(Judge& j, uint64_t nbase, int max_idle, const std::vector<in
     uint64_t idx = 0;
     Knobs k; k.pubs_max = 6; k.suffix = 12 * SEC; k.span = 1 * SEC; k.faults_max = 1; k.bad_attempts_max = 1; k.big_payload_pct = 0;
     k.rm_choices = {0, 0, 1, 2, 5, 10, 65535}; k.authenticator_pct = 30; k.server_disconnect_pct = 40;
-    const uint64_t nmini = 14;   // deterministic small bases on top of the seeded ones (see below)
+    const uint64_t nmini = 16;   // deterministic small bases on top of the seeded ones (see below)
     // debugging aid: --sweep-bi B [--sweep-pass P] [--sweep-ip N] [--sweep-tk K] re-runs the matching placements only (no sharding)
     const bool dbg = ctx.args.has("sweep-bi");
     const int64_t dbg_bi = dbg ? ctx.args.num("sweep-bi") : -1, dbg_pass = ctx.args.has("sweep-pass") ? ctx.args.num("sweep-pass") : -1,
@@ -422,6 +422,14 @@ void run_idle_sweep(Judge& j, uint64_t nbase, int max_idle, const std::vector<in
                 else base.net.write_done_delay_max = 400 * MS;
                 Action ra; ra.kind = Action::reauth; ra.at = variant < 8 ? 260 * MS : 300 * MS; base.script.push_back(ra);
                 base.end = 8 * SEC;
+            } else if (variant >= 14) {
+                // two publishes written and unacknowledged (slow acknowledgements), the connection is lost on the read side while
+                // the sender is idle, the client reconnects: whatever is initiated meanwhile goes behind their retransmissions
+                base.bcfg.ack_delay_min = base.bcfg.ack_delay_max = 5 * SEC;
+                Action pa; pa.kind = Action::publish; pa.at = 100 * MS; pa.qos = 1; pa.topic = "a"; pa.payload = "A"; base.script.push_back(pa);
+                Action pb; pb.kind = Action::publish; pb.at = 101 * MS; pb.qos = 2; pb.topic = "b"; pb.payload = "B"; base.script.push_back(pb);
+                Action kx; kx.kind = Action::net_kill; kx.at = 300 * MS; kx.ec = variant % 2; base.script.push_back(kx);
+                base.end = 12 * SEC;
             } else if (variant >= 10) {
                 // acknowledgements overtake slow write completions while inbound messages keep the sender busy
                 base.net.write_done_delay_max = variant % 2 ? 400 * MS : 60 * MS; base.net.write_done_delay_min = base.net.write_done_delay_max;   // every write completes that late
